@@ -4,11 +4,56 @@ package group
 
 //@ spec func validMembership(v *MembershipValidator, id MemberIndex, key []byte) bool
 
-// C24 / C35 / C12 callers see membership validity as a predicate of
-// (validator, member index, public key); its definition is proved under C12.
-//@ assume func MembershipValidator.IsValidMembership
-//@   ensures result == @validMembership(recv, arg0, arg1)
+// C12: membership validity. Callers see it as the predicate validMembership of
+// (validator, member index, public key); that predicate is DEFINED as the result
+// of IsValidMembership, whose body is verified here against the seat table:
+// valid exactly when the address of the key holds seat memberID-1. The seat
+// table is written only by the constructor, which records exactly the positions
+// of each address in the operator list.
+//@ type MembershipValidator
+//@   property C12
+//@   writers members : NewMembershipValidator
+//@   writers signing : NewMembershipValidator
+
+//@ func MembershipValidator.IsValidMembership
+//@   property C12
+//@   deterministic
+//@   requires mv != nil
+//@   defines @validMembership(mv, memberID, publicKey)
+//@   ensures [valid-exactly-for-a-seat-held-by-the-senders-address] result <==> ((@addrOfKey(mv.signing, publicKey) in mv.members) && (exists p int :: 0 <= p && p < len(mv.members[@addrOfKey(mv.signing, publicKey)]) && mv.members[@addrOfKey(mv.signing, publicKey)][p] == wrap_u8(int(memberID) - 1)))
+//@   loop 1 invariant forall p int :: 0 <= p && p < rangeidx1 ==> positions[p] != index
+
+//@ func NewMembershipValidator
+//@   property C12
+//@   deterministic
+//@   modifies alloc
+//@   ensures result != nil && result.signing == signing
+//@   ensures [every-seat-is-recorded-under-its-operator] forall i int :: 0 <= i && i < len(operatorsAddresses) ==> (operatorsAddresses[i] in result.members) && (exists p int :: 0 <= p && p < len(result.members[operatorsAddresses[i]]) && result.members[operatorsAddresses[i]][p] == i)
+//@   ensures [only-seats-of-the-operator-are-recorded] forall a string, p int :: (a in result.members) && 0 <= p && p < len(result.members[a]) ==> 0 <= result.members[a][p] && result.members[a][p] < len(operatorsAddresses) && operatorsAddresses[result.members[a][p]] == a
+//@   loop 1 invariant forall i int :: 0 <= i && i < rangeidx1 ==> (operatorsAddresses[i] in members) && (exists p int :: 0 <= p && p < len(members[operatorsAddresses[i]]) && members[operatorsAddresses[i]][p] == i)
+//@   loop 1 invariant forall a string, p int :: (a in members) && 0 <= p && p < len(members[a]) ==> 0 <= members[a][p] && members[a][p] < rangeidx1 && operatorsAddresses[members[a][p]] == a
 
 //@ func Group.MemberIndexes
 //@   property C05 C12
 //@   ensures result == g.memberIndexes
+
+// Operating members: in the group, not inactive, not disqualified.
+//@ func Group.IsOperating
+//@   property C12
+//@   requires g != nil
+//@   ensures [operating-means-in-group-and-neither-inactive-nor-disqualified] result <==> ((exists i int :: 0 <= i && i < len(g.memberIndexes) && g.memberIndexes[i] == memberIndex) && (forall i int :: 0 <= i && i < len(g.inactiveMemberIndexes) ==> g.inactiveMemberIndexes[i] != memberIndex) && (forall i int :: 0 <= i && i < len(g.disqualifiedMemberIndexes) ==> g.disqualifiedMemberIndexes[i] != memberIndex))
+//@ func Group.isInGroup
+//@   property C12
+//@   requires g != nil
+//@   ensures result <==> (exists i int :: 0 <= i && i < len(g.memberIndexes) && g.memberIndexes[i] == memberIndex)
+//@   loop 1 invariant forall i int :: 0 <= i && i < rangeidx1 ==> g.memberIndexes[i] != memberIndex
+//@ func Group.isInactive
+//@   property C12
+//@   requires g != nil
+//@   ensures result <==> (exists i int :: 0 <= i && i < len(g.inactiveMemberIndexes) && g.inactiveMemberIndexes[i] == memberIndex)
+//@   loop 1 invariant forall i int :: 0 <= i && i < rangeidx1 ==> g.inactiveMemberIndexes[i] != memberIndex
+//@ func Group.isDisqualified
+//@   property C12
+//@   requires g != nil
+//@   ensures result <==> (exists i int :: 0 <= i && i < len(g.disqualifiedMemberIndexes) && g.disqualifiedMemberIndexes[i] == memberIndex)
+//@   loop 1 invariant forall i int :: 0 <= i && i < rangeidx1 ==> g.disqualifiedMemberIndexes[i] != memberIndex
